@@ -80,11 +80,14 @@ def gen_channel(rng, cls=None, physical=False) -> dict:
     kw: dict = {}
     undefined_ok = not physical
 
-    def limit(p_none):
-        return None if (undefined_ok and rng.random() < p_none) else _f(rng, 1.0) * rng.choice([1, 2 * math.pi])
+    def limit():
+        return _f(rng, 1.0) * rng.choice([1, 2 * math.pi])
 
-    kw["max_abs_detuning"] = limit(0.25)
-    kw["max_amp"] = limit(0.25)
+    # undefined limits (virtual channels): both, only the detuning, or (rarely: construction of the host
+    # device then fails, finding C17-F9) only the amplitude
+    r = rng.random() if undefined_ok else 1.0
+    kw["max_abs_detuning"] = None if r < 0.25 else limit()
+    kw["max_amp"] = None if (r < 0.15 or 0.25 <= r < 0.29) else limit()
     if addressing == "Local":
         r = rng.random()
         if r < 0.8:
@@ -415,7 +418,7 @@ def gen_times(rng):
 
 def gen_observable(rng, i: int, qutip=False) -> dict:
     kind = rng.choice(["bitstrings", "expectation", "fidelity", "occupation", "correlation_matrix", "energy",
-                       "energy_variance", "energy_second_moment"])
+                       "energy_variance"] * 4 + ["energy_second_moment"])  # the last cannot be serialised (C17-F5)
     s: dict = dict(kind=kind, evaluation_times=gen_times(rng),
                    tag_suffix=rng.choice([None, None, f"s{i}", "ü"]) if rng.random() < 0.6 else f"t{i}")
     if kind == "bitstrings":
@@ -484,6 +487,11 @@ def gen_config(rng) -> dict:
         s["prefer_device_noise_model"] = rng.random() < 0.5
     if rng.random() < 0.5:
         s["noise"] = gen_noise(rng, allow_irrelevant=False)
+        # a noise model with an effective channel makes the config unserialisable (C17-F6): keep those rare
+        for _ in range(6):
+            if "eff_noise_rates" not in s["noise"]["kw"] or rng.random() < 0.15:
+                break
+            s["noise"] = gen_noise(rng, allow_irrelevant=False)
     if qutip and rng.random() < 0.5:
         s["sampling_rate"] = rng.choice([1.0, 0.5, 0.1])
     if not qutip and rng.random() < 0.2:
